@@ -301,6 +301,8 @@ def _check_rewrite(m, cls):
 def check_case(m):
     fmt, route = m["format"], m["route"]
     cls = ["format:" + fmt, "route:" + route]
+    if m.get("int_returns") and not str(route).startswith(("potable", "main", "cli")):
+        cls.append("callables_return_ints")
     els = eamtab.element_set(m)
     asym = len(els) >= 2 and _asym(m)
     if asym:
